@@ -175,4 +175,14 @@ theorem output_text_keeps_source_text (root : Node) (d : Twin.Doc)
   unfold keepOf at h1 ⊢
   rw [h1, String.toList_ofList]
 
+/-- The text of every atom of a layout occurs, as it is, in the rendered text. -/
+theorem render_infix (xs : List Atom) (a : Atom) (h : a ∈ xs) :
+    (Atom.render a).toList <:+: (renderAtoms xs).toList := by
+  obtain ⟨l1, l2, rfl⟩ := List.append_of_mem h
+  unfold renderAtoms
+  rw [String.toList_join, List.flatMap_map]
+  simp only [List.flatMap_append, List.flatMap_cons]
+  exact ⟨List.flatMap (fun a => a.render.toList) l1, List.flatMap (fun a => a.render.toList) l2, by
+    simp [List.append_assoc]⟩
+
 end Typstyle
